@@ -252,7 +252,9 @@ func (s *Server) DialClient(ctx context.Context, link *protocol.Link) (net.Conn,
 		return clientConn, nil
 	}
 
-	if isNoRoute {
+	// the hostname has routes, but none of them led to a client: whether the client was
+	// simply not connected or every dial attempt failed, the tunnel exists and is unreachable
+	if isNoRoute || len(ret.routes) > 0 {
 		return nil, tun.ErrTunnelClientNotConnected
 	}
 
